@@ -421,6 +421,48 @@ def dirwalk_replay(ctx):
                             dict(row=row, big=big), sig=dict(kind='dirwalk', big=big, equal_sizes=equal_sizes))
         shutil.rmtree(os.path.join(root, 't%d' % ri), ignore_errors=True)
     ctx.notes['dirwalk_trees_replayed'] = len(rows)
+    # ---- trees of any depth (DirWalkDeep.tla): the flags must travel down every level ----
+    fnames, dnames = ['a1', 'c3'], ['b2']
+    drank = {n: i for i, n in enumerate(sorted(fnames + dnames))}
+
+    def dconsts(variant):
+        return dict(FileNames=frozenset(fnames), DirNames=frozenset(dnames), Sizes=raw('{1, 2}'), MaxDepth=raw('2'), Variant=variant,
+                    Rank=raw('[n \\in {%s} |-> CASE %s]' % (', '.join('"%s"' % n for n in drank), ' [] '.join('n = "%s" -> %d' % (n, i) for n, i in drank.items()))))
+    ctx.tlc_check('MC_DirWalkDeep', 'DirWalkDeep', consts=dconsts('as_coded'), defs='ASSUME Refines /\\ SameTasks', coverage=False, timeout=900)
+    ctx.tlc_check('MC_DirWalkDeep_fb', 'DirWalkDeep', consts=dconsts('forget_big'), defs='ASSUME Refines /\\ SameTasks', coverage=False, timeout=900)
+    r1 = ctx.tlc_check('MC_DirWalkDeep_fr', 'DirWalkDeep', consts=dconsts('forget_recursive_big'), defs='ASSUME SameTasks', coverage=False, timeout=900, expect_ok=False)
+    r2 = ctx.tlc_check('MC_DirWalkDeep_fr1', 'DirWalkDeep', consts=dconsts('forget_recursive_big'), defs='ASSUME OneLevelAgrees', coverage=False, timeout=900)
+    if r1.ok():
+        ctx.vacuity.append('DirWalkDeep: the design that forgets `recursive` in the biggest-first branch was expected to be refuted')
+    ctx.notes['dirwalk_deep'] = 'forgetting `recursive` one level down is refuted at depth 2 and agrees on trees one level deep (OneLevelAgrees %s)' % ('holds' if r2.ok() else 'fails')
+    ft2 = os.path.join(ctx.wdir('dirwalk'), 'rows_deep.json')
+    ctx.tlc_check('MC_DirWalkDeepTable', 'DirWalkDeepTable', consts=dconsts('as_coded'), env={'OUT_TABLE': ft2}, workers=1, coverage=False, timeout=900)
+    drows = json.load(open(ft2))
+    drows = [r_ for r_ in drows if any(len(p_) == 3 for p_, _ in r_['files'])]          # the trees DirWalk.tla cannot express
+    drows = rng.sample(drows, min(len(drows), ctx.pick(300, 3000)))
+    for ri, row in enumerate(drows):
+        top = os.path.join(root, 'd%d' % ri, 'in')
+        for p_, sz in row['files']:
+            os.makedirs(os.path.join(top, *p_[:-1]), exist_ok=True)
+            with open(os.path.join(top, *p_), 'wb') as f:
+                f.write(b'x' * sz)
+        scope = [tuple(r_) for r_ in row['scope']]
+        ctx.case(('dirwalk-deep', ri), True)
+        for big in (False, True):
+            out = os.path.join(root, 'd%d' % ri, 'out')
+            try:
+                got = list(DirWalk.dirWalk(top, out, '', row['rec'], big))
+            except Exception as e:
+                ctx.fail('dirWalk raised %s: %s on %s' % (type(e).__name__, e, json.dumps(row)[:300]), dict(row=row), sig=dict(kind='dirwalk-exception'))
+                continue
+            want = sorted((os.path.join(top, *r_), os.path.join(out, *r_)) for r_ in scope)
+            pairs = sorted((g.filePathIn, g.filePathOut) for g in got)
+            if pairs != want:
+                ctx.fail('dirWalk(recursive=%s, bigFirst=%s) on a tree three levels deep yields %r, the tree holds %r' % (
+                    row['rec'], big, [os.path.relpath(a, top) for a, _ in pairs], [os.path.relpath(a, top) for a, _ in want]),
+                    dict(row=row, big=big), sig=dict(kind='dirwalk', big=big, deep=True))
+        shutil.rmtree(os.path.join(root, 'd%d' % ri), ignore_errors=True)
+    ctx.notes['dirwalk_deep_trees_replayed'] = len(drows)
 
 
 def proclog_extra(ctx):
